@@ -1055,6 +1055,10 @@ class SSHProcess(SSHStreamSession, Generic[AnyStr]):
         self._readers = {}
         self._writers = {}
 
+        # A drain() on a redirected stream waits for its reader to finish
+        for datatype in self._drain_waiters:
+            self._unblock_drain(datatype)
+
     def data_received(self, data: AnyStr, datatype: DataType) -> None:
         """Handle incoming data from the SSH channel"""
 
